@@ -371,6 +371,10 @@ def c06_core():
         aims="try_map whose INNER parser fails must leave the pending error of an earlier, deeper alternative in place")
     add("try_map_ok_pending", Then(TryMap(Then(Just(0), OrNot(Just(1))), 2), Just(3)),
         aims="try_map that SUCCEEDS must keep the error its inner parser left pending at that error's own position (union with the follower's failure)")
+    add("three_failures", Or3(Just(0), Then(Just(1), Then(Just(2), TryMap(Any(), 3))), Then(Just(4), Just(5))),
+        aims="three failures in the order p0, then a user error at p2 > p0 (filed through add_alt_err), then p1 with p0 < p1 <= p2: the user error at the true furthest position stays")
+    add("three_failures_custom", Or3(Just(0), Then(Just(1), Custom2(2)), Then(Just(3), Just(4))),
+        aims="same with a custom parser that fails after consuming two tokens")
     add("custom_far", Or(Then(Just(0), Custom2(1)), Then(Any(), Just(2))),
         aims="a user error from custom at the furthest position is preserved")
     add("try_map_with", Or(TryMapWith(Then(Any(), Any()), 0), Then(Just(1), Just(2))), aims="try_map_with error position")
